@@ -17,3 +17,5 @@ time_t g_now;
 int g_cb_called, g_cb_ret; const jwk_item_t *g_cb_key; jwt_alg_t g_cb_alg;
 jwk_item_t *g_cb_pool_key; json_t *g_cb_pool_node;
 size_t g_b64_g;
+/* DER ghosts of the OpenSSL model (contracts/openssl_model.h) */
+const void *g_der_buf; const struct ECDSA_SIG_st *g_der_sig;
